@@ -154,3 +154,67 @@ def normalize_smt_nontiny(interp, P, ins):
       A.assume.append(out[k, j] * nrm[k] == row[j])
     interp.nontiny_side.append(xx)
   return [out.reshape(x.shape), nrm.reshape(lead)]
+
+
+_TINY = None
+
+
+def _tiny_formula(row):
+  import z3
+  from fractions import Fraction
+  t = z3.RealVal(str(Fraction(1e-8)))
+  return z3.And(*[z3.And(e <= t, e >= -t) for e in row if not isc(e)] + [bool(abs(e) <= Fraction(1e-8)) for e in row if isc(e)])
+
+
+def safe_norm_smt(interp, P, ins):
+  """VERIFIED (C09/safe_norm/contract_{tiny,nontiny}): brax.math.safe_norm(x) (whole-array norm, axis=None):
+       all |x_i| <= 1e-8  =>  n = 0 ;   otherwise  n >= 0 and n^2 = x.x"""
+  import z3
+  A = interp.alg
+  batch = tuple(P['batch'])
+  x = interp.lift(ins[0])
+  nb = int(np.prod(batch)) if batch else 1
+  rows = x.reshape((nb, -1))
+  k0 = len(interp.calls)
+  out = np.empty((nb,), dtype=object)
+  for k, row in enumerate(rows):
+    if all(isc(e) and e == 0 for e in row):
+      out[k] = 0
+      continue
+    n = A.var('snorm!%d!%d' % (k0, k))
+    xx = 0
+    for e in row:
+      xx = A.add(xx, A.mul(e, e))
+    tiny = _tiny_formula(row)
+    A.assume += [n >= 0, z3.Implies(tiny, n == 0), z3.Implies(z3.Not(tiny), n * n == xx)]
+    out[k] = n
+  return [out.reshape(batch)]
+
+
+def normalize_smt_full(interp, P, ins):
+  """VERIFIED (C09/normalize/contract_{tiny,nontiny}): brax.math.normalize(x) -> (n, norm), last axis:
+       all |x_i| <= 1e-8  =>  norm = 0 and n = x / 1e-6 ;   otherwise  norm >= 0, norm^2 = x.x, n * norm = x"""
+  import z3
+  from fractions import Fraction
+  A = interp.alg
+  x = interp.lift(ins[0])
+  rows, lead = _rows(x, 1)
+  out = np.empty(rows.shape, dtype=object)
+  nrm = np.empty((rows.shape[0],), dtype=object)
+  k0 = len(interp.calls)
+  big = z3.RealVal(str(1 / Fraction(1e-6)))
+  for k, row in enumerate(rows):
+    if all(isc(e) and e == 0 for e in row):
+      out[k] = [0] * len(row)
+      nrm[k] = 0
+      continue
+    xx = 0
+    for e in row:
+      xx = A.add(xx, A.mul(e, e))
+    tiny = _tiny_formula(row)
+    nrm[k] = A.var('nrmf!%d!n%d' % (k0, k))
+    A.assume += [nrm[k] >= 0, z3.Implies(tiny, nrm[k] == 0), z3.Implies(z3.Not(tiny), nrm[k] * nrm[k] == xx)]
+    for j in range(len(row)):
+      out[k, j] = A.var('nrmf!%d!%d_%d' % (k0, k, j))
+      A.assume += [z3.Implies(tiny, out[k, j] == row[j] * big), z3.Implies(z3.Not(tiny), out[k, j] * nrm[k] == row[j])]
+  return [out.reshape(x.shape), nrm.reshape(lead)]
